@@ -545,7 +545,7 @@ def run_liveness(consts, wd, prop="StopTerminates", workers=8, timeout=1500):
     env = dict(os.environ)
     env.pop("JAVA_TOOL_OPTIONS", None)
     t0 = time.time()
-    p = subprocess.run(["timeout", str(timeout), "java", "-XX:+UseParallelGC", "-Xmx4g", "-Xss64m", "-cp", core.TLA_CP,
+    p = subprocess.run(["timeout", str(timeout), "java", "-XX:+UseParallelGC", "-Xmx6g", "-Xss64m", "-cp", core.TLA_CP,
                         "tlc2.TLC", "-workers", str(workers), "-metadir", os.path.join(wd, "meta"),
                         "-noGenerateSpecTE", "MC.tla"], cwd=wd, stdout=subprocess.PIPE, stderr=subprocess.STDOUT,
                        text=True, env=env)
@@ -637,7 +637,7 @@ def run(prop_id, tier, seed, replay=None):
             g = G()
             for i, r in enumerate(cfg["runs"]):
                 tlc = core.run_tlc([SPEC], "Shutdown", consts_of(r), workers=8,
-                                   invariants=["TypeOK", "QuitOrder", "NoViolation"], heap="3g",
+                                   invariants=["TypeOK", "QuitOrder", "NoViolation"], heap="6g",
                                    workdir=os.path.join(sc, "tlc%d" % i), timeout=3000)
                 if not tlc.ok:
                     raise core.MachineryError("TLC on Shutdown failed: %s\n%s" % (tlc.error, tlc.stdout_tail[-3000:]))
